@@ -24,6 +24,15 @@ from .solve import prove, eval_val, eval_term, val_vars, free_vars, to_smt2
 
 
 class HarnessError(Exception):
+    """the real code refuses / returns something of the wrong shape when asked to do what the property says it offers"""
+
+
+class StructureChanged(Exception):
+    """an assumption of the harness' own instrumentation (cut points, recorded calls, signatures) no longer holds: the
+    check cannot decide anything on this tree and must say so (harness error, exit 3) - never a VIOLATION"""
+
+
+class _Unused(Exception):
     pass
 
 
@@ -322,6 +331,8 @@ def run_harness(h: Harness, seed=0, tier="quick", shard=None):
         stats["not_offered"] = str(e)[:200]
         stats["wall"] = time.time() - t_start
         return dict(records=records, stats=stats)
+    except StructureChanged:
+        raise
     except Exception as e:
         # the real code refuses/crashes when asked to do what the property says it offers
         import traceback
